@@ -284,7 +284,16 @@ func H_C18_ConfiguredInPlace() {
 	if rt.NondetChoice("kind", 2) == 0 {
 		early := writer.New()
 		earlyIndent, earlyNoClobber := early.Options.RenderOptions.Indent, early.Options.StoreOptions.NoClobber
-		w := writer.New()
+		// built without options, or with options that are explicitly nil (documented as "keep the default")
+		var w *writer.Writer
+		switch rt.NondetChoice("niloptions", 3) {
+		case 0:
+			w = writer.New()
+		case 1:
+			w = writer.New(writer.WithRenderOptions(nil), writer.WithStoreOptions(nil))
+		case 2:
+			w = writer.New(writer.WithSerializeOptions(nil), writer.WithRenderOptions(nil))
+		}
 		w.Options.RenderOptions.Indent = rt.NondetInt("indent", 0, 16)
 		w.Options.StoreOptions.NoClobber = !w.Options.StoreOptions.NoClobber
 		w.Options.SetFormatOptions("k", rt.NondetString("v"))
@@ -304,4 +313,23 @@ func H_C18_ConfiguredInPlace() {
 	later := reader.New()
 	rt.Assert(rt.And(later.Options.GetFormatOptions("k") == nil, later.Options.Format == "", later.Options.RetrieveOptions == nil), "C18.inplace.reader.laterPristine")
 	rt.Assert(rt.And(early.Options.GetFormatOptions("k") == nil, early.Options.Format == "", early.Options.RetrieveOptions == nil), "C18.inplace.reader.earlierUnchanged")
+}
+
+// H_C18_ParseLeavesConfig: parsing and writing through an instance do not change the instance's configuration
+// (auto-detected formats, per-call options) - the configuration read afterwards is the one it was built with.
+func H_C18_ParseLeavesConfig() {
+	r := reader.New()
+	cdx := jObj(jm{"bomFormat", jStr("CycloneDX")}, jm{"specVersion", jStr("1.5")}, jm{"version", jNum(1)},
+		jm{"metadata", jObj(jm{"component", jObj(jm{"type", jStr("library")}, jm{"name", jStr("c")}, jm{"bom-ref", jStr("root")})})})
+	if _, err := r.ParseStream(rt.NewJSONStream(cdx)); err != nil {
+		rt.Assert(false, "C18.parse.ok")
+		return
+	}
+	rt.Assert(rt.And(r.Options.Format == "", r.Options.GetFormatOptions("k") == nil, r.Options.RetrieveOptions == nil), "C18.parse.readerConfigUnchanged")
+	later := reader.New()
+	rt.Assert(later.Options.Format == "", "C18.parse.laterPristine")
+	w := writer.New(writer.WithFormat(formats.CDX15JSON))
+	doc := &sbom.Document{Metadata: &sbom.Metadata{Id: "d", Version: "1"}, NodeList: &sbom.NodeList{Nodes: []*sbom.Node{{Id: "n"}}, RootElements: []string{"n"}}}
+	w.WriteStreamWithOptions(doc, nopWC{}, &writer.Options{Format: formats.SPDX23JSON, RenderOptions: &native.RenderOptions{Indent: 1}})
+	rt.Assert(rt.And(w.Options.Format == formats.CDX15JSON, w.Options.RenderOptions.Indent == defaultIndent), "C18.parse.writerConfigUnchanged")
 }
